@@ -104,6 +104,31 @@ package unserializers
 
 //@ pred cdxNodeOf(m *sbom.Node, c *cyclonedx.Component) = (c.BOMRef != "" ==> m.Id == c.BOMRef) && m.Name == c.Name && m.Version == c.Version && m.Copyright == c.Copyright && m.Description == c.Description && m.Identifiers != nil && (c.PackageURL != "" ==> (1 in m.Identifiers) && m.Identifiers[1] == c.PackageURL) && ((m.Type == 1) <==> (CDX.componentTypeToPurpose(nil, c.Type) == 12)) && (m.Type == 0 || m.Type == 1)
 
+// a switch over the enum: state independent
+//@ func CDX.cdxExtRefTypeToProtobomType
+//@   props C02
+//@   shadow
+
+// reader side of external references: one protobom reference per CycloneDX reference, in order,
+// with its URL, comment and mapped type; every hash value of the result is a hash value of that reference
+//@ func CDX.unserializeExternalReferences
+//@   props C02
+//@   inline
+//@   ensures [C02:cdx:extrefs:count] (cdxReferences == nil ==> len(result) == 0) && (cdxReferences != nil ==> len(result) == len(*cdxReferences))
+//@   ensures [C02:cdx:extrefs:scalars] cdxReferences != nil ==> (forall a int :: 0 <= a && a < len(result) ==> result[a] != nil && result[a].Url == (*cdxReferences)[a].URL && result[a].Comment == (*cdxReferences)[a].Comment && result[a].Type == CDX.cdxExtRefTypeToProtobomType(nil, (*cdxReferences)[a].Type))
+//@   ensures [C02:cdx:extrefs:hashes] cdxReferences != nil ==> (forall a int, k int32 :: 0 <= a && a < len(result) && (k in result[a].Hashes) ==> (*cdxReferences)[a].Hashes != nil && (exists j int :: 0 <= j && j < len(*(*cdxReferences)[a].Hashes) && result[a].Hashes[k] == (*(*cdxReferences)[a].Hashes)[j].Value))
+//@   invariant L0: [C02:inv] len(ret) == _i && (cap(ret) == 0 || fresh(arr(ret))) && (forall a int :: 0 <= a && a < _i ==> ret[a] != nil && fresh(ret[a]) && ret[a].Hashes != nil && fresh(ret[a].Hashes) && ret[a].Url == (*cdxReferences)[a].URL && ret[a].Comment == (*cdxReferences)[a].Comment && ret[a].Type == CDX.cdxExtRefTypeToProtobomType(nil, (*cdxReferences)[a].Type))
+//@   invariant L0: [C02:inv] forall a int, b int :: 0 <= a && a < b && b < _i ==> ret[a] != ret[b] && ret[a].Hashes != ret[b].Hashes
+//@   invariant L0: [C02:inv] forall a int, k int32 :: 0 <= a && a < _i && (k in ret[a].Hashes) ==> (*cdxReferences)[a].Hashes != nil && (exists j int :: 0 <= j && j < len(*(*cdxReferences)[a].Hashes) && ret[a].Hashes[k] == (*(*cdxReferences)[a].Hashes)[j].Value)
+//@   invariant L1: [C02:inv] len(ret) == _i1 && 0 <= _i1 && _i1 < len(*cdxReferences) && (cap(ret) == 0 || fresh(arr(ret))) && (forall a int :: 0 <= a && a < _i1 ==> ret[a] != nil && fresh(ret[a]) && ret[a].Hashes != nil && fresh(ret[a].Hashes) && ret[a] != nref && ret[a].Hashes != nref.Hashes && ret[a].Url == (*cdxReferences)[a].URL && ret[a].Comment == (*cdxReferences)[a].Comment && ret[a].Type == CDX.cdxExtRefTypeToProtobomType(nil, (*cdxReferences)[a].Type))
+//@   invariant L1: [C02:inv] forall a int, b int :: 0 <= a && a < b && b < _i1 ==> ret[a] != ret[b] && ret[a].Hashes != ret[b].Hashes
+//@   invariant L1: [C02:inv] forall a int, k int32 :: 0 <= a && a < _i1 && (k in ret[a].Hashes) ==> (*cdxReferences)[a].Hashes != nil && (exists j int :: 0 <= j && j < len(*(*cdxReferences)[a].Hashes) && ret[a].Hashes[k] == (*(*cdxReferences)[a].Hashes)[j].Value)
+//@   invariant L1: [C02:inv] nref != nil && fresh(nref) && nref.Hashes != nil && fresh(nref.Hashes) && nref.Url == (*cdxReferences)[_i1].URL && nref.Comment == (*cdxReferences)[_i1].Comment && nref.Type == CDX.cdxExtRefTypeToProtobomType(nil, (*cdxReferences)[_i1].Type) && (*cdxReferences)[_i1].Hashes != nil
+//@   invariant L1: [C02:inv] forall k int32 :: (k in nref.Hashes) ==> (exists j int :: 0 <= j && j < _i && nref.Hashes[k] == (*(*cdxReferences)[_i1].Hashes)[j].Value)
+
+//@ pred cdxNodeRefsOf(m *sbom.Node, c *cyclonedx.Component) = (c.ExternalReferences == nil ==> len(m.ExternalReferences) == 0) && (c.ExternalReferences != nil ==> len(m.ExternalReferences) == len(*c.ExternalReferences) && (forall a int :: 0 <= a && a < len(m.ExternalReferences) ==> m.ExternalReferences[a] != nil && m.ExternalReferences[a].Url == (*c.ExternalReferences)[a].URL && m.ExternalReferences[a].Comment == (*c.ExternalReferences)[a].Comment && m.ExternalReferences[a].Type == CDX.cdxExtRefTypeToProtobomType(nil, (*c.ExternalReferences)[a].Type)))
+//@ pred cdxNodeRefHashesOf(m *sbom.Node, c *cyclonedx.Component) = c.ExternalReferences != nil ==> (forall a int, k int32 :: 0 <= a && a < len(m.ExternalReferences) && (k in m.ExternalReferences[a].Hashes) ==> (*c.ExternalReferences)[a].Hashes != nil && (exists j int :: 0 <= j && j < len(*(*c.ExternalReferences)[a].Hashes) && m.ExternalReferences[a].Hashes[k] == (*(*c.ExternalReferences)[a].Hashes)[j].Value))
+
 //@ func CDX.componentToNode
 //@   props C02, C05
 //@   inline
@@ -111,9 +136,15 @@ package unserializers
 //@   ensures [C05:cdx:idNonEmpty] result0 != nil ==> result0.Id != ""
 //@   requires [C02:pre] c != nil && cc != nil
 //@   ensures [C02:cdx:node:scalars] result1 == nil && result0 != nil && cdxNodeOf(result0, c)
+//@   ensures [C02:cdx:node:extrefs] result0 != nil && cdxNodeRefsOf(result0, c) && cdxNodeRefHashesOf(result0, c)
 //@   invariant L0: [C02:inv] node != nil && fresh(node) && node.Identifiers != nil && node.Hashes != nil && node.Identifiers != node.Hashes
+//@   invariant L0: [C02:inv] cdxNodeRefsOf(node, c) && cdxNodeRefHashesOf(node, c) && (forall a int :: 0 <= a && a < len(node.ExternalReferences) ==> node.ExternalReferences[a].Hashes != node.Hashes && node.ExternalReferences[a].Hashes != node.Identifiers)
 //@   invariant L0: [C02:inv] c.PackageURL != "" ==> (1 in node.Identifiers) && node.Identifiers[1] == c.PackageURL
 
 // writer contract + reader contract ==> the scalar attributes, the purl and the file kind survive
 // (JSON layer: trusted identity on these fields); sbom.Purpose_FILE == 12
+// writer contract + reader contract ==> external references survive in number, order, URL and comment, their type
+// when the writer's table maps it to a native CycloneDX type, and every hash value read back was written for that reference
+//@ lemma cdxExtRefsRoundTrip [C02]: forall c *cyclonedx.Component, n *sbom.Node, m *sbom.Node :: c != nil && n != nil && m != nil && serializers.cdxCompRefsOf(c, n) && serializers.cdxCompRefHashesOf(c, n) && cdxNodeRefsOf(m, c) && cdxNodeRefHashesOf(m, c) ==> len(m.ExternalReferences) == len(n.ExternalReferences) && (forall a int :: 0 <= a && a < len(n.ExternalReferences) ==> m.ExternalReferences[a].Url == n.ExternalReferences[a].Url && m.ExternalReferences[a].Comment == n.ExternalReferences[a].Comment && m.ExternalReferences[a].Type == CDX.cdxExtRefTypeToProtobomType(nil, serializers.CDX.protobomExtRefTypeToCdxType(nil, n.ExternalReferences[a].Type)) && (forall k int32 :: (k in m.ExternalReferences[a].Hashes) ==> (exists k2 int32 :: (k2 in n.ExternalReferences[a].Hashes) && m.ExternalReferences[a].Hashes[k] == n.ExternalReferences[a].Hashes[k2])))
+
 //@ lemma cdxComponentScalarsRoundTrip [C02]: forall c *cyclonedx.Component, n *sbom.Node, m *sbom.Node :: c != nil && n != nil && m != nil && n.Id != "" && serializers.cdxCompOf(c, n) && cdxNodeOf(m, c) ==> m.Id == n.Id && m.Name == n.Name && m.Version == n.Version && m.Description == n.Description && m.Copyright == n.Copyright && ((n.Identifiers != nil && (1 in n.Identifiers) && n.Identifiers[1] != "") ==> (1 in m.Identifiers) && m.Identifiers[1] == n.Identifiers[1]) && (n.Type == 1 && CDX.componentTypeToPurpose(nil, "file") == 12 ==> m.Type == 1)
